@@ -49,6 +49,9 @@ def cfgOfArgs (kv : List (String × String)) : Cfg :=
     boundsDecodedLen := triArg kv "boundsDecodedLen" false
     parseConsumesAll := triArg kv "parseConsumesAll" false
     shortPayloadIsEOF := triArg kv "shortPayloadIsEOF" false
+    zeroSizeIsEOF := triArg kv "zeroSizeIsEOF" false
+    zeroTailIsEOF := triArg kv "zeroTailIsEOF" false
+    openStopsAtZeroSize := triArg kv "openStopsAtZeroSize" false
     chronSurfacesError := triArg kv "chronSurfacesError" false
     openCutsTornTail := triArg kv "openCutsTornTail" false
     apiValidatesKeys := triArg kv "apiValidatesKeys" false
@@ -281,6 +284,14 @@ def step (d : DS) (line : String) : DS × String :=
     if d.st.sess.isSome then (d, "rej open")
     else if !d.fileExists then (d, "rej header")
     else ({ d with st := zeroCounts d.st }, "ok")
+  | ["ztail", n] =>
+    match n.toNat? with
+    | none => (d, "bad-op")
+    | some k =>
+      if k > 1048576 then (d, "bad-op")
+      else if d.st.sess.isSome then (d, "rej open")
+      else if !d.fileExists then (d, "rej header")
+      else ({ d with st := { d.st with file := d.st.file ++ List.replicate k 0 } }, "ok")
   | ["compact"] =>
     if d.st.sess.isSome then (d, "rej open")
     else if !d.fileExists then (d, "rej header")
